@@ -41,6 +41,33 @@ def fmtList (l : List Int) : String := "[" ++ ",".intercalate (l.map toString) +
 /-- run the operator until the environment's turn (bounded only to keep the function total) -/
 def settle {St Loc α β} (M : Machine St Loc α β) (s : Sys St Loc α β) : Sys St Loc α β := advance M 100000 s
 
+/-- `Namespace.constructor` of the first location mentioned in the `Repr` of a location (for composites: of the innermost frame) -/
+def locTag (r : String) : String :=
+  match r.splitOn "Loc." with
+  | pre :: post :: _ =>
+    let ns := ((pre.splitOn ".").filter (· != "")).getLast?.getD "?"
+    let ns := String.ofList (ns.toList.reverse.takeWhile (fun c => c.isAlphanum)).reverse
+    ns ++ "." ++ String.ofList (post.toList.takeWhile (fun c => c.isAlphanum || c == '_'))
+  | _ => "?"
+
+/-- `settle`, recording which locations of the model are executed (coverage of the model's code by the scripts) -/
+def settleCov {St Loc α β} (M : Machine St Loc α β) (tag : Loc → String) : Nat → Sys St Loc α β → List String → Sys St Loc α β × List String
+  | 0, s, acc => (s, acc)
+  | n+1, s, acc =>
+    let acc := match s.stack with
+      | .run l :: _ => let t := tag l; if acc.contains t then acc else t :: acc
+      | _ => acc
+    match opStep M s with
+    | none => (s, acc)
+    | some s' => settleCov M tag n s' acc
+
+def runMovesCov {St Loc α β} (M : Machine St Loc α β) (tag : Loc → String) :
+    Sys St Loc α β → List (Move α) → List String → Option (Sys St Loc α β) × List String
+  | s, [], acc => (some s, acc)
+  | s, m :: ms, acc => match envMoveX M s m with
+    | none => (none, acc)
+    | some s1 => let (s2, acc) := settleCov M tag 100000 s1 acc; runMovesCov M tag s2 ms acc
+
 /-- replay a script; `none` if some move is not legal where it stands -/
 def runMoves {St Loc α β} (M : Machine St Loc α β) : Sys St Loc α β → List (Move α) → Option (Sys St Loc α β)
   | s, [] => some s
@@ -121,6 +148,12 @@ def traceTxt {St Loc β} (M : Machine St Loc Int β) (fb : β → String) (ms : 
   match runMoves M (Sys.init M) ms with
   | some s => " ".intercalate (s.tr.reverse.map (Ev.txt fmtInt fb))
   | none => "?illegal"
+
+def traceTxtCov {St Loc β} (M : Machine St Loc Int β) (fb : β → String) (tag : Loc → String) (ms : List (Move Int)) (acc : List String) :
+    String × List String :=
+  match runMovesCov M tag (Sys.init M) ms acc with
+  | (some s, acc) => (" ".intercalate (s.tr.reverse.map (Ev.txt fmtInt fb)), acc)
+  | (none, acc) => ("?illegal", acc)
 
 def scriptTxt (ms : List (Move Int)) : String := " ".intercalate (ms.map (Move.txt fmtInt))
 
